@@ -108,8 +108,9 @@ KANI_GROUPS = {
                    dict(name="vk_renko_down_symbolic", kind="complete", timeout=600, tier="quick")]),
     "text": dict(
         src="kani/text.rs", append_to="src/core/candles.rs", module="core::candles::verif_text",
-        harnesses=[dict(name="vk_source_text_roundtrip", kind="complete", timeout=900, tier="thorough"),
-                   dict(name="vk_source_parse_total_len3", kind="bounded(len <= 3 bytes)", timeout=900, tier="thorough")]),
+        # vk_source_text_roundtrip / vk_source_parse_total_len3 (symbolic strings) stay in the file but are not registered: CBMC does not finish them
+        harnesses=[dict(name="vk_source_concrete_spellings", kind="bounded(six concrete texts through the real to_ascii_lowercase/trim/match)", timeout=300, props=["C18"], witness_units=["text_forms"]),
+                   dict(name="vk_ma_concrete_spellings", kind="bounded(six concrete texts through the real split_once/parse/match)", timeout=300, props=["C18"], witness_units=["ma_text"])]),
     "ohlcv": dict(
         src="kani/ohlcv.rs", append_to="src/core/ohlcv.rs", module="core::ohlcv::verif_ohlcv",
         harnesses=[dict(name=n, kind="complete", timeout=600, tier="quick") for n in
@@ -409,7 +410,7 @@ PROPS["C17"] = dict(
                  "prices are positive (input_ok), as in the property's valid-candle streams"],
 )
 PROPS["C18"] = dict(
-    verus=["ohlcv", "text_forms", "ma_text"], kani=["ohlcv"],
+    verus=["ohlcv", "text_forms", "ma_text"], kani=["ohlcv", "text"],
     forbid_in_src=[(r'"[^"]*[A-Z\s][^"]*"\s*(\||=>)|=>\s*"[^"]*[A-Z\s][^"]*"\s*,', "the source names matched and produced in core/candles.rs are lowercase without blanks (axiom norm_fixed)", r"src/core/candles\.rs$")],
     claim=("tp, hl2, ohlc4, volumed_price, source(kind), clv (incl. the zero-range branch and |clv| <= 1 for an ordered candle), tr_close == max(h-l, |h-pc|, |l-pc|) "
            "for h >= l, tr, and Candle + Candle (with associativity as a lemma) are verified over exact reals against their formulas for an arbitrary "
@@ -419,7 +420,8 @@ PROPS["C18"] = dict(
            "&str yields the canonical name; source_text_roundtrip proves that the text of every source parses back to the same source. "
            "Text form of the moving-average constructors (unit ma_text): MA::from_str is verified to accept exactly `<name>-<period>` - a text that splits at its first dash into one of the "
            "fifteen exact lowercase names and a period text that parses as PeriodType - to return the kind that name selects with that length, and to reject everything else with Err; "
-           "ma_text_roundtrip proves, for every kind and length, that such a text is accepted as exactly that value (the fifteen names are pairwise different)."),
+           "ma_text_roundtrip proves, for every kind and length, that such a text is accepted as exactly that value (the fifteen names are pairwise different). "
+           "Two bounded Kani harnesses run six concrete texts each through the real std text primitives (upper case, surrounding blanks, an out-of-range period, a missing dash, an unknown name)."),
     assumptions=[REALS + " for the arithmetic identities (float + on volumes is not associative; the lemma is the ideal-arithmetic reading)",
                  "`s.to_ascii_lowercase().trim()` is an uninterpreted normalisation (norm_text) with the single axiom that it leaves the nine lowercase, blank-free names alone (norm_fixed); "
                  "that the names in the source have this form is backed by a source scan of core/candles.rs on every run",
